@@ -69,6 +69,10 @@ impl Check for C05 {
 }
 
 // ---------------------------------------------------------------------------------------------
+fn is_unbounded(j: &J) -> bool {
+    j.get("mode").and_then(|m| m.as_str()) == Some("optimiser-unbounded")
+}
+
 pub struct C20;
 
 impl Check for C20 {
@@ -79,7 +83,7 @@ impl Check for C20 {
         "fault_enumeration"
     }
     fn rule(&self) -> String {
-        "run i (optimiser part): steps x inner_steps from {0,1,2,3,7,10,100,1000,1050}^2 (plus random inner 1..40), temperatures {0,1e-3,0.1,5}, schedules, convergence {None,0,1e-9,1e-3,1e9}, every landscape kind; optimise_state under catch_unwind; runs with a convergence threshold are executed with their twin without it. Every 8th run (CLI part): one execution of the shipped binary in a fresh scratch directory: a valid group/shape/potential/replication/step invocation from the swarm, combined with one fault from the finite list {none, ENOENT parent, ENOTDIR parent, EISDIR json, EISDIR svg, ENOSPC json, ENOSPC svg (/dev/full symlinks), polygon+LJ, sides<3, replications 0, steps 0, inner-steps 0, unknown group, missing start-config, valid start-config of another group, stale output files}. Non-trivial: a zero-length or inner>steps configuration, an early exit, a history with accepts and rejects, or any process execution. Distinct: distinct history hashes (process: exit status, normalised stderr, output bytes).".into()
+        "run i (optimiser part): steps x inner_steps from {0,1,2,3,7,10,100,1000,1050}^2 (plus random inner 1..40), temperatures {0,1e-3,0.1,5}, schedules, convergence {None,0,1e-9,1e-3,1e9}, every landscape kind; optimise_state under catch_unwind; runs with a convergence threshold are executed with their twin without it. Every 64th run ('run until converged', in a process of its own): steps in {2^64-1, 2^63, 1e18, 1e13, 2^40} with a threshold every loop meets (inf, 1e300): must equal the run of exactly six inner loops without a threshold, within a budget of 6*inner_steps+64 score() evaluations; a process that dies (allocation failure) or never returns is a violation. Every 8th run (CLI part): one execution of the shipped binary in a fresh scratch directory: a valid group/shape/potential/replication/step invocation from the swarm, combined with one fault from the finite list {none, ENOENT parent, ENOTDIR parent, EISDIR json, EISDIR svg, ENOSPC json, ENOSPC svg (/dev/full symlinks), polygon+LJ, sides<3, replications 0, steps 0, inner-steps 0, unknown group, missing start-config, valid start-config of another group, stale output files}. Non-trivial: a zero-length or inner>steps configuration, an early exit, a history with accepts and rejects, or any process execution. Distinct: distinct history hashes (process: exit status, normalised stderr, output bytes).".into()
     }
     fn runs(&self, tier: Tier) -> u64 {
         match tier {
@@ -91,18 +95,40 @@ impl Check for C20 {
         // every 8th run is a process execution of the shipped binary
         if i % 8 == 7 {
             e4::gen_c20_e4(rng, tier)
+        } else if i % 64 == 5 {
+            // "run until converged": executed in a process of its own (see isolate_scenario)
+            e1::checks2::gen_c20_unbounded(rng)
         } else {
             e1::checks2::gen_c20_e1(rng, tier)
         }
     }
     fn execute(&self, j: &J) -> Result<RunOut, String> {
+        if is_unbounded(j) {
+            return e1::checks2::exec_c20_unbounded(j);
+        }
         match engine_of(j) {
             "e1-landscape" => e1::checks2::exec_c20_e1(j),
             "e4-cliproc" => e4::exec_c20_e4(j),
             other => Err(format!("unknown engine {}", other)),
         }
     }
+    fn isolate_scenario(&self, j: &J) -> bool {
+        is_unbounded(j)
+    }
+    fn child_death_class(&self, j: &J) -> Option<&'static str> {
+        if is_unbounded(j) { Some("process-aborted") } else { None }
+    }
+    fn child_timeout_class(&self, j: &J) -> Option<&'static str> {
+        if is_unbounded(j) { Some("no-early-exit") } else { None }
+    }
     fn shrink(&self, j: &J) -> Vec<J> {
+        if is_unbounded(j) {
+            return e1::checks2::shrink_c20_e1(j)
+                .into_iter()
+                .map(|x| x.set("mode", J::str("optimiser-unbounded")))
+                .filter(|x| e1::checks::unscen(x).map(|(_, _, c)| c.convergence.is_some() && c.kt_finish.is_none() && c.steps >= 6u64.saturating_mul(c.inner) && c.steps > 1 << 39).unwrap_or(false))
+                .collect();
+        }
         match engine_of(j) {
             "e4-cliproc" => e4::shrink_c20_e4(j),
             _ => e1::checks2::shrink_c20_e1(j),
